@@ -11,6 +11,14 @@ pub(crate) struct Thread {
     /// If the thread is runnable, blocked, or terminated.
     pub state: State,
 
+    /// True while the thread is blocked in `park`. Only such a thread is woken
+    /// by `unpark`.
+    parked: bool,
+
+    /// Set by `unpark` when the thread is not parked, consumed by the next
+    /// call to `park`.
+    unpark_token: bool,
+
     /// True if the thread is in a critical section
     pub critical: bool,
 
@@ -75,7 +83,7 @@ impl Id {
 
 #[derive(Debug, Clone, Copy)]
 pub(crate) enum State {
-    Runnable { unparked: bool },
+    Runnable,
     Blocked(#[allow(dead_code)] Location),
     Yield,
     Terminated,
@@ -93,7 +101,9 @@ impl Thread {
         Thread {
             id,
             span: tracing::info_span!(parent: parent_span.id(), "thread", id = id.id),
-            state: State::Runnable { unparked: false },
+            state: State::Runnable,
+            parked: false,
+            unpark_token: false,
             critical: false,
             operation: None,
             causality: VersionVec::new(),
@@ -106,11 +116,25 @@ impl Thread {
     }
 
     pub(crate) fn is_runnable(&self) -> bool {
-        matches!(self.state, State::Runnable { .. })
+        matches!(self.state, State::Runnable)
     }
 
     pub(crate) fn set_runnable(&mut self) {
-        self.state = State::Runnable { unparked: false };
+        self.state = State::Runnable;
+        self.parked = false;
+    }
+
+    /// Blocks the thread in `park`, unless a previous `unpark` left a token, in
+    /// which case the token is consumed and `false` is returned.
+    pub(crate) fn set_parked(&mut self, location: Location) -> bool {
+        if self.unpark_token {
+            self.unpark_token = false;
+            return false;
+        }
+
+        self.set_blocked(location);
+        self.parked = true;
+        true
     }
 
     pub(crate) fn set_blocked(&mut self, location: Location) {
@@ -155,13 +179,25 @@ impl Thread {
         self.set_unparked();
     }
 
-    /// Unpark a thread's state. If it is already runnable, store the unpark for
-    /// a future call to `park`.
-    fn set_unparked(&mut self) {
-        if self.is_blocked() || self.is_yield() {
+    /// Wakes a thread that is blocked waiting for a notification (condition
+    /// variable, `Notify`). Unlike `unpark`, nothing is stored if the thread is
+    /// not blocked.
+    pub(crate) fn wake(&mut self, waker: &Thread) {
+        self.causality.join(&waker.causality);
+
+        if self.is_blocked() && !self.parked {
             self.set_runnable();
-        } else if self.is_runnable() {
-            self.state = State::Runnable { unparked: true }
+        }
+    }
+
+    /// Unpark a thread's state. If it is not parked, store the unpark for a
+    /// future call to `park`. A thread that is blocked on something else (a
+    /// lock, a channel, a join) stays blocked.
+    fn set_unparked(&mut self) {
+        if self.parked {
+            self.set_runnable();
+        } else {
+            self.unpark_token = true;
         }
     }
 }
@@ -300,6 +336,16 @@ impl Set {
     pub(crate) fn active_atomic_version(&self) -> u16 {
         let id = self.active_id();
         self.active().causality[id]
+    }
+
+    /// Wakes a thread blocked waiting for a notification from the active thread
+    pub(crate) fn wake(&mut self, id: Id) {
+        if id == self.active_id() {
+            return;
+        }
+
+        let (active, th) = self.active2_mut(id);
+        th.wake(active);
     }
 
     pub(crate) fn unpark(&mut self, id: Id) {
